@@ -476,7 +476,13 @@ class Registry(object):
             if len(self.samples) < 6:
                 self.samples.append(s)
         self.errors.extend(exp["errors"])
-        self.extra.update(exp["extra"])
+        for k, v in exp["extra"].items():
+            if isinstance(v, list) and isinstance(self.extra.get(k), list):
+                self.extra[k].extend(x for x in v if x not in self.extra[k])
+            elif isinstance(v, dict) and isinstance(self.extra.get(k), dict):
+                self.extra[k].update(v)
+            else:
+                self.extra[k] = v
         self.solver_seconds += exp["solver_seconds"]
 
     # -- finishing ---------------------------------------------------------
